@@ -178,6 +178,12 @@ func TestVerifC10(t *testing.T) {
 		}
 		if r == (2*rounds)/3 {
 			// snapshot + restart: the marker must survive in the restored state
+			*canaryCompactionStart = 0
+			if base%2 == 0 {
+				// fold the whole log into the serialized state: the marker must come out of the snapshot
+				*canaryCompactionStart = time.Now().Add(3 * time.Hour).UnixNano()
+				rep.Obs("snapshot.with-everything-folded", 1)
+			}
 			if err := n.raft.Snapshot().Error(); err != nil && !strings.Contains(err.Error(), "nothing new") {
 				rep.Note("snapshot: " + err.Error())
 			}
